@@ -2,7 +2,7 @@
 From Coq Require Import Strings.String Strings.Byte.
 From Coq Require Import List NArith ZArith.
 From Goit Require Import Bytes Obj Commit World Repo LogFacts.
-From Goit Require Import BranchFacts ChainFacts.
+From Goit Require Import BranchFacts ChainFacts LogView LogViewFacts.
 Import ListNotations.
 
 (* T1: on the parent chain l of the tip, `log -n k` prints exactly the first
@@ -67,6 +67,19 @@ Theorem C14_chain_of_every_commit : forall h,
     = Some (firstn (Z.to_nat n) l).
 Proof. exact log_on_reachable_any. Qed.
 
+(* each listed commit is shown with its own id, author and message: every line
+   printed on a reachable repository is a stored commit, and the author and
+   message shown for it are the ones its object holds *)
+Theorem C14_each_with_its_own_author_and_message : forall h e x tip cm n,
+  w_coll (run h w_empty) = false -> w_inited (run h w_empty) = true ->
+  ctx_of (run h w_empty) = Some x -> x_headc x = Some (tip, cm) ->
+  exists l, chain (w_objs (run h w_empty)) tip l /\ NoDup l /\
+    step (ACmd e (CLog n)) (run h w_empty) = (run h w_empty, OOk (map hex (firstn (Z.to_nat n) l)), []) /\
+    Forall (fun id => exists c, get_commit (w_objs (run h w_empty)) id = Some c /\
+              log_entry (w_objs (run h w_empty)) id = Some (hex id, c_author c, c_msg c))
+           (firstn (Z.to_nat n) l).
+Proof. exact log_lines_have_entries. Qed.
+
 Print Assumptions C14_log_spec.
 Print Assumptions C14_fuel_suffices.
 Print Assumptions C14_independence.
@@ -74,3 +87,4 @@ Print Assumptions C14_bounded.
 Print Assumptions C14_each_once.
 Print Assumptions C14_log_on_every_reachable_repository.
 Print Assumptions C14_chain_of_every_commit.
+Print Assumptions C14_each_with_its_own_author_and_message.
